@@ -31,3 +31,31 @@ Fixpoint register_all (r : registry) (l : list (str * N)) : registry :=
   | [] => r
   | (u, t) :: rest => register_all (register r u t) rest
   end.
+
+(* ---- (3) the order of the hoisted lines --------------------------------------------------------------- *)
+(* write_variable_declares iterates over sorted(to_write, key=(is a def, name)) (fixes fe522bf, d4d69a4), the page arguments of
+   __M_locals and the names a <% %> block publishes are sorted likewise (a3a93d6): the text of the module, the order of the
+   context's keys and the name a strict_undefined template reports are functions of the sets *)
+(* lexicographic order of strings by code point, a proper prefix first: the order of Python's sorted() on str *)
+Fixpoint str_leb (a b : str) : bool :=
+  match a, b with
+  | [], _ => true
+  | _ :: _, [] => false
+  | x :: a', y :: b' => if x <? y then true else if y <? x then false else str_leb a' b'
+  end.
+
+Fixpoint insert_s (x : str) (l : list str) : list str :=
+  match l with
+  | [] => [x]
+  | y :: r => if str_leb x y then x :: l else y :: insert_s x r
+  end.
+Definition sort_s (l : list str) : list str := fold_right insert_s [] l.
+
+(* write_variable_declares: the context look-ups first, then the closures / def stubs, each group in sorted order *)
+Definition emitted (names defs : list str) : list str := sort_s names ++ sort_s defs.
+
+
+(* which missing name a strict_undefined template reports: the first one in that sequence *)
+Definition first_missing (have : str -> bool) (names defs : list str) : option str :=
+  find (fun x => negb (have x)) (emitted names defs).
+
